@@ -45,6 +45,7 @@ properties! {
     "C09" => c09,
     "C10" => c10,
     "C11" => c11,
+    "C12" => c12,
     "C15" => c15,
     "C18" => c18,
 }
